@@ -91,8 +91,32 @@ def stub(name):
 class C05(Prop):
     id = 'C05'
     props_modules = ['CylcModel.Props.C05']
-    theorems = []
-    statement_note = 'TODO'
+    theorems = [
+        'CylcModel.C05.membership_partition',
+        'CylcModel.C05.members_are_tasks',
+        'CylcModel.C05.default_not_first_counterexample',
+        'CylcModel.C05.release_limit',
+        'CylcModel.C05.release_order',
+        'CylcModel.C05.release_unlimited',
+        'CylcModel.C05.limit_and_order_keep',
+        'CylcModel.C05.limit_and_order_partial',
+        'CylcModel.C05.order_rotate_counterexample',
+        'CylcModel.C05.code_as_probed',
+    ]
+    statement_note = (
+        'component level (IndepQueueManager / LimitedTaskQueue). Proved for ALL configurations, task tables and '
+        'operation histories (no bound on sizes or lengths): membership_partition (each task name in exactly one '
+        'queue: the last non-default queue listing it directly or via a family, else default; precondition: '
+        '"default" iterated first, which parsec guarantees - default_not_first_counterexample shows it is needed); '
+        'release_limit / release_order / release_unlimited for a single release call in any state; and the refinement '
+        'theorems: the property judge (limit per queue given the counter, FIFO prefix of the non-held queued tasks, '
+        'nothing released twice / after removal / while held) accepts every run of the model - FULL for the policy '
+        '"held tasks keep their place" (limit_and_order_keep), PARTIAL for the unpatched code (policy "rotate": '
+        'limit_and_order_partial needs hold-free histories; order_rotate_counterexample refutes the full form on the '
+        'witness of finding held-requeue-order; findings/C05-fix-1.diff switches the probed policy to "keep", after '
+        'which code_as_probed is the full statement). NOT covered here: TaskPool.count_active_tasks / '
+        'release_queued_tasks / manual trigger (which tasks count as active; "only manual triggering may exceed a '
+        'limit") - scheduler level, lifted through Sched')
     technique = 'refinement of a FIFO/limit judge by the queue model over all operation histories + correspondence'
     trusted = [
         'parsec/WorkflowConfig hand "default" first to IndepQueueManager (limit 100 when not written): modelled by '
@@ -115,8 +139,12 @@ class C05(Prop):
     def setup(self):
         from cylc.flow.task_queues.independent import IndepQueueManager, LimitedTaskQueue
         self.Mgr, self.LQ = IndepQueueManager, LimitedTaskQueue
-        self._opts = None
-        self._tmp = None
+        # imported before the worker pool forks
+        from cylc.flow.config import WorkflowConfig
+        from cylc.flow.option_parsers import Options
+        from cylc.flow.scripts.validate import get_option_parser
+        self.WorkflowConfig = WorkflowConfig
+        self._opts = Options(get_option_parser())()
 
     def translate(self):
         from collections import Counter
@@ -188,10 +216,11 @@ class C05(Prop):
     def gen(self, tier, rng):
         n = {'quick': 6000, 'thorough': 120000, 'search': 200000}[tier]
         n_parsec = {'quick': 160, 'thorough': 3000, 'search': 400}[tier]
+        every = max(1, n // n_parsec)     # parsec cases (slow) are spread over the batch
         for k in range(n):
             yield self.random_case(rng, parsec=False, big=(tier != 'quick' and k % 5 == 0))
-        for _ in range(n_parsec):
-            yield self.random_case(rng, parsec=True)
+            if k % every == 0 and k // every < n_parsec:
+                yield self.random_case(rng, parsec=True)
 
     def random_case(self, rng, parsec, big=False):
         n_fam = rng.choice([0, 1, 2, 2, 3, 4])
@@ -220,7 +249,7 @@ class C05(Prop):
             cfg.insert(0, dflt)
         # task proxies
         n_items = rng.randint(1, 14 if big else 9)
-        name_pool = tasks * 6 + ['orph', 'orph2'] + leaves
+        name_pool = tasks * 6 + ['orph', 'orph2']
         items = [rng.choice(name_pool) for _ in range(n_items)]
         ops = self.random_ops(rng, items, tasks, rng.randint(3, 40 if big else 24))
         inp = {'cfg': cfg, 'parsec': parsec, 'tasks': tasks, 'desc': desc, 'items': items, 'ops': ops}
@@ -239,11 +268,13 @@ class C05(Prop):
         return [[nm, rng.choice([0, 1, 1, 1, 2, 3])] for nm in names]
 
     def random_ops(self, rng, items, tasks, length):
-        ops, mq, held = [], set(), set()
+        """well-formed histories: an id is queued only when it is certainly not queued, and only
+        proxies of task names or of already adopted orphans are queued"""
+        ops, mq, held, adopted = [], set(), set(), set()
         ids = list(range(len(items)))
         for _ in range(length):
             r = rng.random()
-            free = [t for t in ids if t not in mq]
+            free = [t for t in ids if t not in mq and (items[t] in tasks or items[t] in adopted)]
             if r < 0.34 and free:
                 t = rng.choice(free)
                 mq.add(t)
@@ -262,12 +293,14 @@ class C05(Prop):
                 t = rng.choice(list(mq) if mq and rng.random() < 0.8 else ids)
                 held.add(t)
                 ops.append(['hold', t])
-            elif r < 0.96:
+            elif r < 0.94:
                 t = rng.choice(list(held) if held and rng.random() < 0.8 else ids)
                 held.discard(t)
                 ops.append(['unhold', t])
             else:
-                ops.append(['adopt', [rng.choice(['orph', 'orph2', 'orph3']) for _ in range(rng.randint(0, 2))]])
+                os_ = [rng.choice(['orph', 'orph2', 'orph3']) for _ in range(rng.randint(0, 2))]
+                adopted |= set(os_)
+                ops.append(['adopt', os_])
         if rng.random() < 0.85:      # drain: the final order becomes visible through the API
             ops += [['unhold', t] for t in sorted(held)]
             ops += [['rel', []] for _ in range(min(len(items), rng.randint(1, 6)))]
@@ -276,11 +309,7 @@ class C05(Prop):
     # ------------------------------------------------------------------
     def _real_config(self, inp):
         """Queue config, task names and descendants as the real WorkflowConfig produces them."""
-        from cylc.flow.config import WorkflowConfig
-        if self._opts is None:
-            from cylc.flow.option_parsers import Options
-            from cylc.flow.scripts.validate import get_option_parser
-            self._opts = Options(get_option_parser())()
+        WorkflowConfig = self.WorkflowConfig
         d = tempfile.mkdtemp(prefix='c05-', dir='/dev/shm' if os.path.isdir('/dev/shm') else None)
         try:
             p = os.path.join(d, 'flow.cylc')
@@ -407,14 +436,17 @@ class C05(Prop):
 
     @staticmethod
     def _wf(inp):
-        mq = set()
+        mq, adopted = set(), set()
         for op in inp['ops']:
             if op[0] in ('push', 'pil'):
-                if op[1] in mq:
+                nm = inp['items'][op[1]]
+                if op[1] in mq or not (nm in inp['tasks'] or nm in adopted):
                     return False
                 mq.add(op[1])
             elif op[0] == 'rm':
                 mq.discard(op[1])
+            elif op[0] == 'adopt':
+                adopted |= set(op[1])
         return True
 
 
